@@ -19,7 +19,7 @@ func init() {
 			Explanation: "Decides field coverage of the genesis round trip: for types.AppState and every struct nested in it, each field is WRITTEN by code reachable from the exporters (CheckState.Export, the export command) and READ by code reachable from the importers (State.Import, SwapV2.Import, Blockchain.InitChain). A field with a writer and no reader is state that an export→genesis→import cycle silently drops; a field with a reader and no writer is state the new chain invents. " +
 				"(order) every map range in Export-reachable code is order-insensitive (the C08 rule), so two exports of one state are identical. NOT decided: Verify() accepting the export, value equality of what is written and read back, behaviour of the new chain.",
 			Assumptions: stdAssumptions,
-			Rules:       []string{"C11.fields", "C11.order"},
+			Rules:       []string{"C11.fields", "C11.order", "C11.complete"},
 		},
 		Run: runC11,
 	})
@@ -67,7 +67,34 @@ func nestedStructs(root *types.Named) []*types.Named {
 	return out
 }
 
+// checkExportComplete: an exporter that enumerates a height-keyed store by range must not stop at
+// a protocol horizon: frozen funds can be due at ANY future block (Lock transactions carry their
+// own DueBlock), so FrozenFunds.Export has to enumerate up to the maximum height. Decided: every
+// call of a ranged enumerator (GetFrozenFundsAll) from an Export function passes the constant
+// math.MaxUint64 as its upper bound.
+func checkExportComplete(c *core.Ctx, rule string) {
+	n := 0
+	for _, fn := range c.AllFns {
+		if fn.Synthetic != "" || fn.Name() != "Export" || !strings.HasPrefix(core.PkgOf(fn), core.PkgState) {
+			continue
+		}
+		for _, s := range core.Sites(fn) {
+			if methodName(s) != "GetFrozenFundsAll" {
+				continue
+			}
+			n++
+			good := false
+			if k, ok := core.Unwrap(s.Arg(2)).(*ssa.Const); ok && k.Value != nil && k.Value.ExactString() == "18446744073709551615" {
+				good = true
+			}
+			c.Check(good, rule, core.ShortFn(fn)+"/upper-bound", s.Pos(), "frozen funds are exported up to math.MaxUint64", "the export of frozen funds stops at a bounded height: funds locked until a later block (Lock transactions choose their own due block) are silently left out of the genesis")
+		}
+	}
+	c.Floor(rule, n, 1, "ranged enumerations in exporters")
+}
+
 func runC11(c *core.Ctx) {
+	defer checkExportComplete(c, "C11.complete")
 	root := c.Named("coreV2/types", "AppState")
 	if root == nil {
 		c.Unk("C11.fields", "types.AppState", token.NoPos, "type not found")
